@@ -9,7 +9,7 @@ EXPLANATION = ('SCOPE rule F1 on the four merge_all observers and their queued s
                'stored (queued) closure is called, while a guard of the shared observer_data cell may be held. An inner observable that emits '
                'synchronously at subscription re-enters InnerObserver::next, which re-acquires the same cell: RefCell panics, Mutex '
                'self-deadlocks. F4: slot accounting — outer next subscribes only into a free slot (counting it) and otherwise queues exactly once; an inner completion hands its slot to exactly one waiting task or gives it back; a queued task subscribes once and leaves the counter alone (decision tables over running - limit, abstract interpretation). F3: each observer method takes its decision and acts on it within one acquisition of the shared state (no check-then-act split). F2: the queue of waiting inner subscriptions is first-in-first-out (necessary for concat order and for merge_all(n) serving waiters in arrival order). Decides the "without panicking or blocking" clause and this ordering precondition; exactly-once delivery, order, order beyond F2 and the completion condition are not decided. Inner/outer error '
-               'envelopes are checked under C03.S2. F6 the completion of the outer stream is never swallowed: on every path of complete() of the outer observer it is either recorded (flag) or delivered downstream, or the slot is already empty; F5 the builders wire the concurrency limit their names promise: concat_all/concat_map = merge_all with limit 1, flatten/flat_map = no limit, merge_all(n) = n, in the local and the thread-safe form (operator trees of the builders).')
+               'envelopes are checked under C03.S2. F7 the shared state of the flattening stays in its cell while an item is delivered (items go through the borrowed slot: an observer taken out makes the stream look terminated to every other inner and to the outer); F6 the completion of the outer stream is never swallowed: on every path of complete() of the outer observer it is either recorded (flag) or delivered downstream, or the slot is already empty; F5 the builders wire the concurrency limit their names promise: concat_all/concat_map = merge_all with limit 1, flatten/flat_map = no limit, merge_all(n) = n, in the local and the thread-safe form (operator trees of the builders).')
 TECHNIQUE = 'static analysis: lock-scope, slot-accounting and FIFO rules over MIR event graphs; operator-tree matching of the flattening builders (custom rustc_private driver)'
 ASSUMPTIONS = ['an inner observable may emit synchronously during actual_subscribe']
 
@@ -19,6 +19,12 @@ CONTROLS = ['F1|<verif_controls::LockedFlatten<O, Item> as Observer>::next', 'F2
 
 
 def check(cx):
+    _env_wrapped = True
+    from . import c03
+    return _check_own(cx) + c03.envelopes(cx, ID)
+
+
+def _check_own(cx):
     F = cx.facts
     res = []
     n_sites = 0
@@ -67,6 +73,8 @@ def check(cx):
         res += f4(cx)
         res += f5(cx)
         res += f6(cx)
+        from . import c01
+        res += [Finding(ID, 'F7', f.key, f.ok, f.msg, f.loc, f.witness) for f in c01.p3(cx, items=True) if 'merge_all::' in f.key]
     from ..core import fifo_findings
     ff = fifo_findings(cx, ID, 'F2', ('src/ops/merge_all.rs',))
     res += ff
